@@ -257,7 +257,153 @@ pub fn run(ctx: &mut Ctx, replay: Option<&str>) {
             ctx.violation("oracle", "issue", "decoys off: every _sd list lists the digests in member order (order leak)", json!({"lists": lists_total_off}), json!({"in_member_order": lists_member_order_off}), json!("not all"));
         }
     }
+    if replay.is_none() {
+        many_objects(ctx);
+    }
     if let Some(f) = flows.last() {
         ctx.sample(f.json());
+    }
+}
+
+/// the `_sd` list of every object image of an issued SD-JWT (payload and disclosed values); `{"...": d}` placeholders are not objects of the claims
+fn object_images(v: &Value, out: &mut Vec<Vec<String>>) {
+    match v {
+        Value::Object(m) => {
+            if m.len() == 1 && m.get("...").map_or(false, Value::is_string) {
+                return;
+            }
+            out.push(m.get("_sd").and_then(Value::as_array).map(|a| a.iter().filter_map(|d| d.as_str().map(String::from)).collect()).unwrap_or_default());
+            for (k, x) in m {
+                if k != "_sd" {
+                    object_images(x, out);
+                }
+            }
+        }
+        Value::Array(a) => a.iter().for_each(|x| object_images(x, out)),
+        _ => {}
+    }
+}
+
+fn many_object_claims(n: usize) -> Value {
+    let list: Vec<Value> = (0..n).map(|i| if i % 3 == 0 { json!({"a": i, "b": {"c": i}}) } else { json!({"a": i}) }).collect();
+    json!({"iss": "https://issuer.example", "exp": crate::imp::now() + 100000, "list": list, "o": {"p": {"q": {}}}})
+}
+
+/// credentials with very many objects, judged on the implementation alone (the extracted model is quadratic in the number of
+/// disclosures): (a) decoys are inert for holder and verifier also when there are thousands of them; (b) an issuer instance
+/// that has already handed out several hundred thousand decoys still gives every object its decoys
+fn many_objects(ctx: &mut Ctx) {
+    use crate::keys::KeyId;
+    // (a)
+    for (wi, n) in (if ctx.tier == Tier::Quick { vec![1500usize] } else { vec![400, 1100, 1500, 3000] }).into_iter().enumerate() {
+        let claims = many_object_claims(n);
+        let fmt = if wi % 2 == 0 { Fmt::Compact } else { Fmt::Json };
+        let mk = |decoy: bool| IssueArgs { claims: claims.clone(), strategy: Strategy::All, holder: None, decoy, fmt, key: KeyId::Hmac1, alg: Some("HS256".into()), queue: None };
+        let case = json!({"many_objects": {"list_elements": n, "fmt": fmt.name(), "strategy": "all"}});
+        let mut outs = vec![];
+        for decoy in [true, false] {
+            let a = mk(decoy);
+            let issued = issue(&a);
+            ctx.impl_calls += 1;
+            let s = match issued.out.ok() {
+                Some(s) => s.clone(),
+                None => {
+                    ctx.violation("oracle", "issue", "a credential with many objects was not issued", case.clone(), issued.out.describe(), json!("Ok"));
+                    return;
+                }
+            };
+            let sel = select_all(&claims).as_object().cloned().unwrap_or_default();
+            let h = holder_session(&s, fmt, &[PresentArgs::plain(sel), PresentArgs::plain(Default::default())]);
+            let pres: Vec<Option<String>> = h.calls.iter().map(|c| c.out.ok().cloned()).collect();
+            let vers: Vec<Outcome<Value>> = pres.iter().map(|p| match p {
+                Some(p) => verify(&VerifyArgs { input: p.clone(), fmt, resolver: Resolver::always(a.key), aud: None, nonce: None }).out,
+                None => Outcome::Err("no presentation".into()),
+            }).collect();
+            ctx.impl_calls += 5;
+            let counts: Vec<Option<usize>> = pres.iter().map(|p| p.as_ref().and_then(|p| split(fmt, p)).map(|p| p.disclosures.len())).collect();
+            outs.push((s, counts, vers));
+        }
+        ctx.evaluations += 1;
+        ctx.oracle_checks += 1;
+        let mut problems = vec![];
+        if outs[0].1 != outs[1].1 || outs[0].1.iter().any(Option::is_none) {
+            problems.push("the holder's result with decoys differs from the decoy-free case".to_string());
+        }
+        for k in 0..2 {
+            match (&outs[0].2[k], &outs[1].2[k]) {
+                (Outcome::Ok(a), Outcome::Ok(b)) => {
+                    if a != b {
+                        problems.push("verified claims with decoys differ from the decoy-free case".into());
+                    } else if k == 0 && *a != claims {
+                        problems.push("select-all on a credential with many objects does not return the claims".into());
+                    }
+                }
+                (a, b) => problems.push(format!("the verifier's decision with decoys ({}) and without ({}) on a credential with many objects: both must accept", a.class(), b.class())),
+            }
+        }
+        ctx.count("case.many-objects-inert");
+        if problems.is_empty() {
+            ctx.nontrivial(&case);
+        } else {
+            ctx.violation("oracle", "verify", &problems[0].clone(), case, json!({"problems": problems}), json!("decoys are inert"));
+        }
+    }
+    // (b)
+    let (n, times) = if ctx.tier == Tier::Quick { (30000usize, 4usize) } else { (30000, 12) };
+    let claims = many_object_claims(n);
+    let a = IssueArgs { claims: claims.clone(), strategy: Strategy::All, holder: None, decoy: true, fmt: Fmt::Compact, key: KeyId::Hmac1, alg: Some("HS256".into()), queue: None };
+    let case = json!({"long_lived_issuer": {"list_elements": n, "issuances_on_one_instance": times, "decoys": true, "strategy": "all"}});
+    match issue_sequence(a.key, a.alg.clone(), vec![a.clone(); times]) {
+        Some(seq) => {
+            ctx.impl_calls += times;
+            let mut handed_out = 0usize;
+            for (k, res) in seq.iter().enumerate() {
+                ctx.evaluations += 1;
+                ctx.oracle_checks += 1;
+                let parts = match res.out.ok().and_then(|s| split(a.fmt, s)) {
+                    Some(p) => p,
+                    None => {
+                        ctx.violation("oracle", "issue", &format!("issuance {} on a long-lived issuer did not return an SD-JWT", k + 1), case.clone(), res.out.describe(), json!("Ok"));
+                        return;
+                    }
+                };
+                let real: HashSet<String> = parts.disclosures.iter().map(|d| hash(d)).collect();
+                let mut images = vec![];
+                if let Some(pl) = parts.payload() {
+                    object_images(&pl, &mut images);
+                }
+                for d in &parts.disclosures {
+                    if let Some(Value::Array(arr)) = decode_disclosure(d) {
+                        if let Some(v) = arr.last() {
+                            object_images(v, &mut images);
+                        }
+                    }
+                }
+                let mut seen = HashSet::new();
+                let mut bare = 0usize;
+                let mut repeated = 0usize;
+                for l in &images {
+                    let decoys: Vec<&String> = l.iter().filter(|d| !real.contains(*d)).collect();
+                    if decoys.is_empty() {
+                        bare += 1;
+                    }
+                    for d in decoys {
+                        if !seen.insert(d.clone()) {
+                            repeated += 1;
+                        }
+                    }
+                }
+                handed_out += seen.len();
+                ctx.count("case.long-lived-issuer-issuance");
+                if bare > 0 || repeated > 0 {
+                    ctx.violation("oracle", "issue", &format!("issuance {} on one issuer instance ({} decoys handed out so far): {} of {} objects carry no decoy digest, {} decoys repeated", k + 1, handed_out, bare, images.len(), repeated),
+                                  case.clone(), json!({"objects": images.len(), "objects_without_decoy": bare, "repeated_decoys": repeated, "issuance": k + 1}), json!("every object carries at least one decoy"));
+                    return;
+                }
+            }
+            ctx.count_n("long_lived_issuer.decoys_handed_out", handed_out);
+            ctx.nontrivial(&case);
+        }
+        None => ctx.notes.push("long-lived issuer stream: the issuance sequence did not run".into()),
     }
 }
